@@ -1611,6 +1611,8 @@ def c11(scn):
 def c11_cause(scn, fail):
     clause, wit = fail
     if clause == "terminates":
+        if any(c.cmd == "pool" and any(t.startswith("sp:") for t in c.toks) for c in scn.calls):
+            return "spurious_wakeup"
         return "lost_wakeup" if any(c.cmd == "pool" and "pause" in c.toks and "resume" in " ".join(c.toks) for c in scn.calls) else "other"
     return "other"
 
